@@ -10,7 +10,7 @@ oracle:          the statement itself on the implementation's answers, with grou
                  population (ids, keywords, mentions) and from the eager reader (serialisation)
 """
 import concurrent.futures as cf
-import hashlib, json, os, re, subprocess, time
+import hashlib, json, os, re, subprocess, threading, time
 from vlib import build as B
 from vlib import lazy_gen as G
 
@@ -21,13 +21,71 @@ PID = "C10"
 
 
 # ---------------------------------------------------------------- running the two sides
-def run_h(exe, env, path, maxid, mode, ids=(), timeout=60):
+class Budget:
+    """Bounded run time on a broken tree too.  Per-process time-out calibrated on the runs that succeeded
+    (20 x median, at least 2 s; 5 s until calibrated); generation stops after `max_fatal` files on which the
+    process hung or died on a signal, or when `wall_s` is used up; shrinking has its own deadline."""
+
+    def __init__(self, wall_s=90.0, max_fatal=3, shrink_s=30.0):
+        self.t0 = time.time()
+        self.wall_s, self.max_fatal, self.shrink_s = wall_s, max_fatal, shrink_s
+        self.timeout = 5.0
+        self.durations = []
+        self.fatal = []          # tags of files with a hang / signal
+        self.skipped = 0
+        self.lock = threading.Lock()
+
+    def note(self, dt):
+        with self.lock:
+            self.durations.append(dt)
+
+    def calibrate(self):
+        with self.lock:
+            if len(self.durations) >= 10:
+                d = sorted(self.durations)
+                self.timeout = max(2.0, 20 * d[len(d) // 2])
+        return self.timeout
+
+    def fatal_seen(self, tag):
+        with self.lock:
+            if tag not in self.fatal:
+                self.fatal.append(tag)
+
+    def exhausted(self):
+        return len(self.fatal) >= self.max_fatal or time.time() - self.t0 > self.wall_s
+
+
+BUDGET = Budget()
+
+
+class _Retry:
+    on = True
+
+
+RETRY = _Retry()
+
+
+def is_fatal(rc):
+    """hang (time-out), signal, abort, sanitizer exit"""
+    return rc == -999 or rc < 0 or rc in (98, 99, 134, 139)
+
+
+def run_h(exe, env, path, maxid, mode, ids=(), timeout=None):
     cmd = [exe, path, str(maxid), mode] + [str(i) for i in ids]
-    try:
-        r = subprocess.run(cmd, capture_output=True, env=env, timeout=timeout)
-        return r.returncode, r.stdout.decode("latin-1").split("\n"), r.stderr.decode("latin-1")
-    except subprocess.TimeoutExpired as e:
-        return -999, (e.stdout or b"").decode("latin-1").split("\n"), "timeout"
+    to = timeout or BUDGET.timeout
+    for attempt in ((0, 1) if RETRY.on else (1,)):
+        t = time.time()
+        try:
+            r = subprocess.run(cmd, capture_output=True, env=env, timeout=to)
+            if r.returncode == 0:
+                BUDGET.note(time.time() - t)
+            return r.returncode, r.stdout.decode("latin-1").split("\n"), r.stderr.decode("latin-1")
+        except subprocess.TimeoutExpired as e:
+            out = (e.stdout or b"").decode("latin-1").split("\n")
+            if attempt == 0:
+                to = 3 * to          # a loaded machine is not a hang: one retry with a longer time-out
+                continue
+            return -999, out, f"timeout: no answer within {to:.0f} s (calibrated time-out {BUDGET.timeout:.1f} s, retried once)"
 
 
 def parse_index(lines):
@@ -159,9 +217,13 @@ def data_hex(text, off):
     return text[off:].encode("latin-1").hex()
 
 
-def check_file(exe, env, model, workdir, tag, text, off, pop, orders, extra_probe=3):
-    """returns dict(problems=[(kind, where, detail)], stats)"""
-    path = os.path.join(workdir, f"{tag}.p21")
+def check_file(exe, env, model, workdir, tag, text, off, pop, orders, extra_probe=3, first_only=False, budget=True):
+    """returns problems [(kind, where, detail)]; where starts with `fatal:` when the process hung or died on a signal.
+    first_only: stop at the first property problem (used while shrinking)."""
+    if budget and BUDGET.exhausted():
+        BUDGET.skipped += 1
+        return [("skipped", "budget", "not run: the run's budget was used up (see evidence)")]
+    path = os.path.join(workdir, f"{tag}-{threading.get_ident() % 100000}.p21")
     with open(path, "wb") as fh:
         fh.write(text.encode("latin-1"))
     maxid = max([x["id"] for x in pop] + [0]) + extra_probe
@@ -174,7 +236,10 @@ def check_file(exe, env, model, workdir, tag, text, off, pop, orders, extra_prob
     rep = model.ask(reqs)
     midx = parse_index(rep[0].split("|"))
     if rc_i != 0:
-        problems.append(("property", "index", f"opening the file with lazyInstMgr ended rc={rc_i}: {err_i.strip()[-300:]}"))
+        if is_fatal(rc_i) and budget:
+            BUDGET.fatal_seen(tag)
+        problems.append(("property", "fatal:index" if is_fatal(rc_i) else "index",
+                         f"opening the file with lazyInstMgr ended rc={rc_i}: {err_i.strip()[-300:]}"))
         return problems
     idx = parse_index(out_i)
     kind, det = oracle_index(pop, idx, eager)
@@ -183,6 +248,8 @@ def check_file(exe, env, model, workdir, tag, text, off, pop, orders, extra_prob
         return problems
     if det:
         problems.append(("property", kind, det))
+        if first_only:
+            return problems
     # model vs implementation: index
     for fld in ("count", "kw", "fwd", "rev", "dep"):
         a, m = idx[fld], midx[fld]
@@ -198,7 +265,14 @@ def check_file(exe, env, model, workdir, tag, text, off, pop, orders, extra_prob
         calls, cached, inv, ended = parse_load(out)
         kind, det = oracle_load(pop, eager, o, rc, calls, ended, err)
         if det:
-            problems.append(("property", kind, det))
+            fatal = is_fatal(rc) or not ended
+            problems.append(("property", ("fatal:" if fatal else "") + kind, det))
+            if fatal:
+                if budget:
+                    BUDGET.fatal_seen(tag)
+                break          # the other histories of this file would wait for the same time-out
+            if first_only:
+                break
             continue
         # cached instances must serialise like the eager ones too (they were loaded as dependencies)
         for i, txt in cached.items():
@@ -269,35 +343,46 @@ def required_ok(s, pop):
     return True
 
 
-def shrink(fails, s, pop, text, off, orders):
-    """fails(text, off, pop, orders) -> bool.  Try the canonical layout, then drop instances, then shorten histories."""
-    t2, o2 = canonical(0, s, pop)
-    if fails(t2, o2, pop, orders):
-        text, off, canon = t2, o2, True
-    else:
-        canon = False
-    changed = True
-    while changed and canon and len(pop) > 1:
-        changed = False
-        for x in list(pop):
-            cand = drop_instance(pop, x["id"])
-            if not required_ok(s, cand):
-                continue
-            ords = [[i for i in o if i != x["id"]] for o in orders]
-            ords = [o for o in ords if o] or [[cand[0]["id"]]]
-            t3, o3 = canonical(0, s, cand)
-            if fails(t3, o3, cand, ords):
-                pop, text, off, orders, changed = cand, t3, o3, ords, True
-                break
-    # one history, as short as possible
+def shrink(fails, s, pop, text, off, orders, deadline=None):
+    """fails(text, off, pop, orders) -> bool.  One history first, then the canonical layout, then drop instances in
+    chunks (halves, quarters, ... single instances), then shorten the history.  Stops at `deadline`."""
+    late = lambda: deadline is not None and time.time() > deadline
     for o in orders:
+        if late():
+            break
         if fails(text, off, pop, [o]):
             orders = [o]
             break
+    t2, o2 = canonical(0, s, pop)
+    canon = (not late()) and fails(t2, o2, pop, orders)
+    if canon:
+        text, off = t2, o2
+    chunk = max(1, len(pop) // 2)
+    while canon and len(pop) > 1 and not late():
+        progress = False
+        k = 0
+        while k < len(pop) and len(pop) > 1 and not late():
+            victims = [x["id"] for x in pop[k:k + chunk]]
+            cand = pop
+            for v in victims:
+                cand = drop_instance(cand, v)
+            if not cand or not required_ok(s, cand):
+                k += chunk
+                continue
+            ords = [[i for i in o if i not in victims] for o in orders]
+            ords = [o for o in ords if o] or [[cand[0]["id"]]]
+            t3, o3 = canonical(0, s, cand)
+            if fails(t3, o3, cand, ords):
+                pop, text, off, orders, progress = cand, t3, o3, ords, True
+            else:
+                k += chunk
+        if chunk == 1 and not progress:
+            break
+        chunk = max(1, chunk // 2)
     if len(orders) == 1:
         o = orders[0]
         k = 0
-        while k < len(o) and len(o) > 1:
+        while k < len(o) and len(o) > 1 and not late():
             c = o[:k] + o[k + 1:]
             if fails(text, off, pop, [c]):
                 o = c
@@ -311,10 +396,10 @@ def report(ctx, exe, env, model, s, pop, text, off, orders, problems, schema_tex
     props = [p for p in problems if p[0] == "property"]
     if props:
         def fails(t, o, pp, oo):
-            pr = check_file(exe, env, model, ctx.work, "shrink", t, o, pp, oo)
+            pr = check_file(exe, env, model, ctx.work, "shrink", t, o, pp, oo, first_only=True, budget=False)
             return any(k == "property" for k, _, _ in pr)
-        pop2, text2, off2, ord2 = shrink(fails, s, pop, text, off, orders)
-        pr = [p for p in check_file(exe, env, model, ctx.work, "shrink", text2, off2, pop2, ord2) if p[0] == "property"]
+        pop2, text2, off2, ord2 = shrink(fails, s, pop, text, off, orders, deadline=time.time() + BUDGET.shrink_s)
+        pr = [p for p in check_file(exe, env, model, ctx.work, "shrink", text2, off2, pop2, ord2, first_only=True, budget=False) if p[0] == "property"]
         det = pr[0][2] if pr else props[0][2]
         ctx.violation(key_of(s, pop2, text2, off2), det,
                       {"schema": schema_text, "file": text2, "load_orders": ord2,
@@ -426,11 +511,22 @@ def run(ctx):
             return j, check_file(exes[si], env, model, ctx.work, tag, text, off, pop, orders)
         except Exception as e:   # machinery
             return j, [("machinery", "check_file", f"{type(e).__name__}: {e}")]
+    global BUDGET
+    BUDGET = Budget(wall_s=90.0 if quick else 720.0, max_fatal=3, shrink_s=30.0 if quick else 60.0)
+    RETRY.on = True
     t0 = time.time()
     results = []
+    nfirst = len(load_corpus()) + len(small)      # corpus and the small graphs first: they also calibrate the time-out
     with cf.ThreadPoolExecutor(max_workers=14) as ex:
-        for j, pr in ex.map(work, jobs):
+        for j, pr in ex.map(work, jobs[:nfirst]):
             results.append((j, pr))
+    BUDGET.calibrate()
+    with cf.ThreadPoolExecutor(max_workers=14) as ex:
+        for j, pr in ex.map(work, jobs[nfirst:]):
+            results.append((j, pr))
+    ctx.cov["correspondence"]["budget"] = {"per-process time-out s": round(BUDGET.timeout, 2), "files with hang/signal": len(BUDGET.fatal),
+                                           "files not run (budget used up)": BUDGET.skipped, "wall budget s": BUDGET.wall_s}
+    results = [(j, pr) for j, pr in results if not (pr and pr[0][0] == "skipped")]
     nprob = 0
     reported = False
     for (si, tag, text, off, pop, orders, cls), pr in results:
@@ -448,6 +544,9 @@ def run(ctx):
     ctx.cov["correspondence"]["files"] = {"n": len(jobs), "with_problems": nprob, "wall_s": round(time.time() - t0, 1)}
     # violation search first: property failures on the implementation
     classified = set()
+    fatal_reported = False
+    # files whose failure is not a hang/signal first: their replays say more than "did not return"
+    results.sort(key=lambda r: any(p[0] == "property" and p[1].startswith("fatal:") for p in r[1]))
     for (si, tag, text, off, pop, orders, cls), pr in results:
         props = [p for p in pr if p[0] == "property"]
         if not props:
@@ -455,14 +554,23 @@ def run(ctx):
         if cls:
             # is the layout class the cause?  the same population in the canonical layout must be clean
             t2, o2 = canonical(0, schemas[si], pop)
-            clean = not [p for p in check_file(exes[si], env, model, ctx.work, "cls", t2, o2, pop, orders) if p[0] == "property"]
+            clean = not [p for p in check_file(exes[si], env, model, ctx.work, "cls", t2, o2, pop, orders, first_only=True, budget=False) if p[0] == "property"]
             if clean:
                 classified.add(tag)
                 ctx.violation("layout:" + cls, f"[{cls}] " + props[0][2],
                               {"schema": G.express(schemas[si]), "file": text, "load_orders": orders[:1], "class": cls})
                 continue
+        fatal = any(p[1].startswith("fatal:") for p in props)
+        if fatal and fatal_reported:
+            continue              # one hang/signal is shrunk and reported; the others would only cost time-outs
         if len([v for v in ctx.violations if not v[0].startswith("layout:")]) < 3:
-            report(ctx, exes[si], env, model, schemas[si], pop, text, off, orders, pr, G.express(schemas[si]))
+            if fatal:
+                fatal_reported = True
+                RETRY.on = False  # while shrinking a hang every evaluation that still hangs costs one time-out, not five
+            try:
+                report(ctx, exes[si], env, model, schemas[si], pop, text, off, orders, pr, G.express(schemas[si]))
+            finally:
+                RETRY.on = True
             reported = True
     if not ctx.violations:
         for (si, tag, text, off, pop, orders, cls), pr in results:
